@@ -204,7 +204,7 @@ claimed["C08"] = (
     "every insertion / removal / drain / entry / clear / deletion / maintain / lazy / join-with-drain path, ending with "
     "the world dropped) constructed = handed back + destroyed as multisets, nothing is looked at after it is gone, and "
     "the values destroyed by each operation equal the specification's. The ledger equation itself is proved operation by "
-    "operation (insert, remove, get_mut with in-place change, get_mut_or_default, drain, the entry API, deletion of entities, clear / Drop of a storage): the values held afterwards, "
+    "operation (insert, remove, get_mut with in-place change, get_mut_or_default, drain, the entry API, deletion of entities, clear / Drop of a storage - and as one theorem for every operation of the Storage API): the values held afterwards, "
     "handed back and destroyed are, as multisets, the values held before plus those moved in, for every kind without "
     "default-filled gaps and both wrappers. Partial: the composition of these equations over whole histories (and "
     "DefaultVecStorage's gap values) is evaluated per history by the check, not "
